@@ -23,7 +23,7 @@ def retry_run(sc, rs, tier, seed):
 
     def persists(case_ops, want_oracle):
         # strip the executor's annotations: a re-run observes its own times
-        ops = [" ".join(t for t in l.split(" ") if not t.startswith(("at=", "at2=", "st=", "post=", "env=")))
+        ops = [" ".join(t for t in l.split(" ") if not t.startswith(("at=", "at2=", "st=", "post=", "env=", "rd=")))
                for l in case_ops]
         text = "\n".join(ops) + "\n"
         for _ in range(retries):
@@ -79,7 +79,7 @@ def retry_run(sc, rs, tier, seed):
     return r
 
 
-DL_RUN = {"harness": "hdeadline", "driver": "dldrv", "corpus": "deadline", "fields": ["st", "post", "overdue", "rt", "wt", "bl"], "custom": retry_run,
+DL_RUN = {"harness": "hdeadline", "driver": "dldrv", "corpus": "deadline", "fields": ["st", "post", "overdue", "rt", "wt", "bl", "rdl"], "custom": retry_run,
           "quick": {"n": 40, "shards": 12}, "thorough": {"n": 96, "shards": 24}}
 
 STOP_RUN = {"harness": "hstop", "driver": "stopdrv", "corpus": "stopsim", "fields": ["stop", "opens", "closes", "qa", "qb", "online", "ha", "hb", "wa", "wb", "got", "ra", "rb", "ret", "leak", "attempts"] + ["c%d" % i for i in range(64)],
@@ -190,7 +190,8 @@ PROPS = {
                 ">= 1 conn existed; lmux case = maxOnlineA x op sequence (dial, takeA/B with blocked consumers, dec, stop) on a "
                 "real ListenerMux; hsim case = nbhttp I/O mode x forced schedule (conn gated inside OnOpen, release, peer close, "
                 "conn accepted after the shutdown flag, request handler held while the conn is closed, stop|shutdown, wait); "
-                "ioblock case = Stop racing a busy read task of the default IO task pool (ET + AsyncReadInPoller), 8 attempts",
+                "ioblock case = Stop racing a read hand-over to the default IO task pool (ET + AsyncReadInPoller): the poller is held "
+                "inside TaskPool.Go by the shim's atomic hook until Stop has stopped the pool (state established by probing)",
         "assumptions": ["the Async queue is a plain FIFO list in the model; that timer.Async is one (FIFO, exactly once, completes) is "
                         "C19's c19_async_fifo_exactly_once / c19_async_completes on ExecQ with Kind.async",
                         "HttpStop: closeAllConns is one atomic step (whole loop under engine.mux; its single Close calls touch "
@@ -224,7 +225,9 @@ PROPS = {
                     "c16_pinned_stale_counterexample documents the pinned behaviour; which error value a timer's closure carries "
                     "(fixed when the timer object is created; Reset keeps it) is not in the model: it is tracked by the driver and "
                     "checked by c16-error-kind; never-early in real time and closing within a bounded time rest on the timer "
-                    "contract and the oracles, keep-alive renewal is sampled",
+                    "contract and the oracles; keep-alive renewals are compared at the op (the expiry the timer is armed for is "
+                    "read from the runtime timer object through a version-dependent, self-checked hook: rd= / rdl=, oracle "
+                    "c16-renewal) and, as a second line, sampled in real time",
             "technique": "Lean 4 proof (invariant over a transition system with ghost 'deadline in force') + differential "
                          "correspondence on real timers"},
         "lean": ["NbioVerif.Properties.C16"], "drivers": ["dldrv"], "harness": ["hdeadline"], "cs": cs_stop.C16_CS,
